@@ -7,7 +7,7 @@ CLAIM = {
                "index/slice/wide read/divisor is a checked operation returning Panic and every loop runs on fuel; induction over the fuel with 'each iteration consumes >= 1 byte'; "
                "lifted to every history of entry-point calls of the decoder object; model tied to decoder.go by differential execution on arbitrary and mutated streams",
   "text": "Full proof on the model for the decoder proper: for every byte string, every option set and every history of Decode/Next/PeekFileHeader/PeekFileId/Discard/"
-          "CheckIntegrity/Reset calls no step panics and no loop hangs (C03_decode_total, C03_api_total), errors are sticky (C03_sticky); the size-before-wide-read, "
+          "CheckIntegrity/Reset calls no step panics and no loop hangs (C03_decode_total, C03_api_total), errors are sticky (C03_sticky), the error of a context that is already done included (C03_context_error_is_kept: DecodeWithContext returns it, no FIT value, and every later entry point returns it); the size-before-wide-read, "
           "valid-base-type-before-division and fuel arguments are the bounds the Go code relies on. The typed-file listener's two-goroutine protocol (pool / message / done channels, capacities translated from listener.go on every run) never deadlocks "
           "and never livelocks for EVERY channel-buffer option, 0 included, every message list and every scheduling (C03_listener_never_deadlocks, C03_listener_terminates, "
           "C03_listener_structure; the option-0 case holds since fix b34bd23). The typed-file listener with channel buffers 0/1/2/128, the raw decoder, DecodeWithContext, "
